@@ -286,6 +286,8 @@ def rule_ordered(ctx: Ctx) -> None:
                           f"{a} has type {t}: iteration order (and so handler start order) is not insertion order")
     n = 0
     for q in NO_SET_ITER:
+        if q.rsplit(".", 1)[-1].startswith("_") and q not in ctx.repo.funcs:
+            continue        # a private helper that was inlined into its caller (the caller is in the list)
         fn = ctx.func(q)
         for node in A.body_nodes(fn, shallow=False):
             it = None
@@ -307,6 +309,8 @@ def rule_ordered(ctx: Ctx) -> None:
     # hash() vary between runs): competing orders would be matched in a different order on every run
     n_sorts = 0
     for q in NO_SET_ITER:
+        if q.rsplit(".", 1)[-1].startswith("_") and q not in ctx.repo.funcs:
+            continue
         fn = ctx.func(q)
         for c in A.func_calls(fn, shallow=False):
             nm = A.call_name(c) or ""
